@@ -39,6 +39,7 @@ import YtkProofs.Decisions
 import YtkModel.Generated.Constants
 import YtkProofs.Decisions2
 import YtkProofs.GapPipelineData
+import YtkProofs.GapPipelinePatch
 
 namespace Ytk.C13
 
@@ -1443,5 +1444,120 @@ theorem nonvacuous_import_binary_decodes :
       some (.leaf ⟨"string", "aGkA/w=="⟩) ∧
     K8s.b64dec "aGkA/w==" = some [104, 105, 0, 255] := by
   decide +kernel
+
+/-! ## round 7: PatchOp over the patch package's model (C13 ↔ C09)
+
+  `patchOp_eq_patch` above holds for an ARBITRARY function `patchDo`.  Here the parameters are C09's model
+  (YtkModel/GapPipelinePatch.lean): `parsePath := Ptr.parseS` (patch.ParsePath), `patchDo := c09PatchDo`, i.e.
+  `Patch.patchDo` (patch.Do) run on the operation object `c09Obj call` and the root container `.cont data`;
+  `patchOpC09` is `patchOp` with these.  (The driver's `patchargs` op only runs `patchArgs`, with a parser
+  that checks the leading '/'; the patch.Do part is C09's driver.) -/
+
+/-- PatchOp.Do is C09's interpreter on the operation object built from the rendered path (parsed as a JSON
+    pointer), the op name, the parsed `from` (absent when empty) and the value — the immediate one, else the
+    node found at the rendered valueFrom -/
+theorem patchOpC09_eq (lenient : String → String) (ps : PatchSpec) (data : AMap Node)
+    (call : PatchCall Ptr.Path) (h : patchArgs Ptr.parseS lenient ps data = some call) :
+    patchOpC09 lenient ps data = c09PatchDo call data ∧
+    (c09Obj call).op = ps.op ∧
+    Ptr.parseS (lenient ps.path) = (c09Obj call).path ∧
+    (c09Obj call).frm = (if ps.from_ = "" then none else Ptr.parseS ps.from_) ∧
+    (c09Obj call).value = (match ps.value with
+      | some v => some v
+      | none => match ps.valueFrom with
+        | some vf => lookup data (lenient vf)
+        | none => none) := by
+  obtain ⟨h1, h2, h3, h4⟩ := patchArgs_fields _ _ _ _ _ h
+  exact ⟨patchOp_eq_patch _ _ _ _ _ _ h, h1, h2, h3, h4⟩
+
+/-- In C09's domain (in-scope non-root pointers, valid value, valid document) the conversion between the root
+    container and its children loses nothing: C09's interpreter returns exactly the container of the
+    pipeline op's new data, with `err` / `ok` as the op's error flag; and the pipeline op IS the RFC 6902
+    reference on that operation object — the reference's document on success, the old data and the error flag
+    on failure. -/
+theorem patchOp_refines_C09 (lenient : String → String) (ps : PatchSpec) (data : AMap Node)
+    (call : PatchCall Ptr.Path) (h : patchArgs Ptr.parseS lenient ps data = some call)
+    (ho : Patch.OpOk (c09Obj call)) (hd : (Node.cont data).Valid) :
+    Patch.patchDo (c09Obj call) (.cont data) =
+      (.cont (patchOpC09 lenient ps data).1, if (patchOpC09 lenient ps data).2 then .err else .ok ()) ∧
+    patchOpC09 lenient ps data = (match Patch.rfc6902 (c09Obj call) (.cont data) with
+      | some (.cont d') => (d', false)
+      | _ => (data, true)) := by
+  have e : patchOpC09 lenient ps data = c09PatchDo call data := patchOp_eq_patch _ _ _ _ _ _ h
+  rw [e]
+  exact ⟨patchDo_eq_c09PatchDo call data ho hd, c09PatchDo_eq_rfc call data ho hd⟩
+
+/-- C09's no-panic theorem transferred: the patch.Do call made by the pipeline op never panics, so the
+    error flag of the pipeline op (which cannot tell `err` from `panic`) is exactly "patch.Do returned an
+    error" -/
+theorem patchOp_C09_no_panic (lenient : String → String) (ps : PatchSpec) (data : AMap Node)
+    (call : PatchCall Ptr.Path) (h : patchArgs Ptr.parseS lenient ps data = some call)
+    (ho : Patch.OpOk (c09Obj call)) (hd : (Node.cont data).Valid) :
+    (Patch.patchDo (c09Obj call) (.cont data)).2 ≠ .panic ∧
+    ((patchOpC09 lenient ps data).2 = true ↔ (Patch.patchDo (c09Obj call) (.cont data)).2 = .err) := by
+  rw [(patchOp_refines_C09 lenient ps data call h ho hd).1]
+  cases (patchOpC09 lenient ps data).2 <;> simp
+
+/-- C09's "failure leaves the document unchanged" transferred to the WHOLE pipeline op (unparsable paths
+    included): whenever PatchOp.Do returns an error the data is exactly what it was -/
+theorem patchOp_C09_error_unchanged (lenient : String → String) (ps : PatchSpec) (data : AMap Node)
+    (ho : ∀ call, patchArgs Ptr.parseS lenient ps data = some call → Patch.OpOk (c09Obj call))
+    (hd : (Node.cont data).Valid) (he : (patchOpC09 lenient ps data).2 = true) :
+    (patchOpC09 lenient ps data).1 = data := by
+  cases h : patchArgs Ptr.parseS lenient ps data with
+  | none => simp [patchOpC09, patchOp, h]
+  | some call =>
+    have e : patchOpC09 lenient ps data = c09PatchDo call data := patchOp_eq_patch _ _ _ _ _ _ h
+    rw [e] at he ⊢
+    exact c09PatchDo_error_unchanged call data (ho call h) hd he
+
+/-- … and the data stays a valid document (sorted unique keys without index groups), error or not -/
+theorem patchOp_C09_valid (lenient : String → String) (ps : PatchSpec) (data : AMap Node)
+    (ho : ∀ call, patchArgs Ptr.parseS lenient ps data = some call → Patch.OpOk (c09Obj call))
+    (hd : (Node.cont data).Valid) : (Node.cont (patchOpC09 lenient ps data).1).Valid := by
+  cases h : patchArgs Ptr.parseS lenient ps data with
+  | none => simpa [patchOpC09, patchOp, h] using hd
+  | some call =>
+    have e : patchOpC09 lenient ps data = c09PatchDo call data := patchOp_eq_patch _ _ _ _ _ _ h
+    rw [e]
+    exact c09PatchDo_valid call data (ho call h) hd
+
+def exPatchData : AMap Node :=
+  [("a", .list [.leaf ⟨"int", "1"⟩, .leaf ⟨"int", "2"⟩]), ("b", .cont [("x", .leaf ⟨"int", "1"⟩)])]
+
+/-- non-vacuity: an insert into a list (the call that is built is in C09's scope), a move out of a container
+    into a list, `copy` without `from` (error, data unchanged), `add` of the node found at valueFrom `a[1]`,
+    a remove beyond the list (error), a path without leading '/' (error before patch.Do) -/
+theorem nonvacuous_patchOp_C09 :
+    (patchArgs Ptr.parseS id ⟨"add", "", "/a/1", some (.leaf ⟨"int", "9"⟩), none⟩ exPatchData).map
+        (fun c => (c.op, c.from_, c.path, c.value)) =
+      some ("add", none, ["a", "1"], some (.leaf ⟨"int", "9"⟩)) ∧
+    Patch.inScope (c09Obj ⟨"add", none, ["a", "1"], some (.leaf ⟨"int", "9"⟩)⟩) = true ∧
+    patchOpC09 id ⟨"add", "", "/a/1", some (.leaf ⟨"int", "9"⟩), none⟩ exPatchData =
+      ([("a", .list [.leaf ⟨"int", "1"⟩, .leaf ⟨"int", "9"⟩, .leaf ⟨"int", "2"⟩]),
+        ("b", .cont [("x", .leaf ⟨"int", "1"⟩)])], false) ∧
+    patchOpC09 id ⟨"move", "/b/x", "/a/0", none, none⟩ exPatchData =
+      ([("a", .list [.leaf ⟨"int", "1"⟩, .leaf ⟨"int", "1"⟩, .leaf ⟨"int", "2"⟩]), ("b", .cont [])], false) ∧
+    patchOpC09 id ⟨"copy", "", "/b/y", none, some "a[1]"⟩ exPatchData = (exPatchData, true) ∧
+    patchOpC09 id ⟨"add", "", "/b/y", none, some "a[1]"⟩ exPatchData =
+      ([("a", .list [.leaf ⟨"int", "1"⟩, .leaf ⟨"int", "2"⟩]),
+        ("b", .cont [("x", .leaf ⟨"int", "1"⟩), ("y", .leaf ⟨"int", "2"⟩)])], false) ∧
+    patchOpC09 id ⟨"remove", "", "/a/7", none, none⟩ exPatchData = (exPatchData, true) ∧
+    patchOpC09 id ⟨"remove", "", "a/0", none, none⟩ exPatchData = (exPatchData, true) := by
+  decide +kernel
+
+/-- … and the hypotheses of the transfer theorems hold for the first of these: the document is valid and
+    the operation object is in C09's domain -/
+theorem nonvacuous_patchOp_C09_hyps :
+    (Node.cont exPatchData).Valid ∧
+    Patch.OpOk (c09Obj ⟨"add", none, ["a", "1"], some (.leaf ⟨"int", "9"⟩)⟩) := by
+  refine ⟨?_, ⟨by decide, ?_⟩⟩
+  · have h0 : (Node.cont []).Valid := ⟨.cont .nil (by simp), .cont (by simp) (by simp)⟩
+    have ha : (Node.list [.leaf ⟨"int", "1"⟩, .leaf ⟨"int", "2"⟩]).Valid :=
+      Patch.valid_list (by simp [Node.Valid.leaf])
+    have hb := Patch.valid_insert h0 (Node.Valid.leaf ⟨"int", "1"⟩) (k := "x") (by decide)
+    have h1 := Patch.valid_insert h0 ha (k := "a") (by decide)
+    exact Patch.valid_insert h1 hb (k := "b") (by decide)
+  · intro v hv; cases hv; exact Node.Valid.leaf _
 
 end Ytk.C13
